@@ -248,79 +248,3 @@ Proof.
   all: try (intros y Hy; apply Htg; apply Hown; right; exact Hy).
   all: intros y Hy; apply Htg; apply (L_set c HL (j_cur th)); [apply lands_end; [exact Hown|simpl in *; assumption]|exact Hy].
 Qed.
-
-Lemma SGR_reach : forall v np ops c, jv_alloc_table v = true -> jreach v np ops c -> SGR c.
-Proof.
-  intros v np ops c Hv H. induction H as [|c t c' Hr IH Hs].
-  - intros r s Hin. destruct (getp_init np ops r) as [E|E]; rewrite E in Hin; simpl in Hin; [destruct Hin|].
-    destruct Hin as [<-|[]]. apply nr_refl.
-  - exact (SGR_step v c t c' (JE4_reach v np ops c Hv Hr) IH Hs).
-Qed.
-
-Lemma RC_reach : forall v np ops c, jv_alloc_table v = true -> jreach v np ops c -> RC c.
-Proof.
-  intros v np ops c Hv H. induction H as [|c t c' Hr IH Hs].
-  - intros k Hrc. apply ld_here. unfold settled.
-    destruct (getp_init np ops k) as [E|E]; rewrite E in *; simpl in *; [split; reflexivity|discriminate].
-  - exact (RC_step v c t c' (JS_reach v np ops c Hr) (JZ_reach v np ops c Hv Hr) (JE4_reach v np ops c Hv Hr)
-             (SGR_reach v np ops c Hv Hr) IH Hs).
-Qed.
-
-Lemma JL_reach : forall v np ops c, jreach v np ops c -> JL c.
-Proof.
-  intros v np ops c H. induction H as [|c t c' Hr IH Hs].
-  - constructor.
-    + intros t th Hth. simpl in Hth. rewrite nth_error_map in Hth. destruct (nth_error ops t); inversion Hth; subst. exact I.
-    + intros r x _ Hin. unfold in_rows, rows_of in Hin. destruct (getp_init np ops r) as [E|E]; rewrite E in Hin; destruct Hin.
-  - exact (JL_step v c t c' (JV_reach v np ops c Hr) (JR_reach v np ops c Hr) (JS_reach v np ops c Hr) IH Hs).
-Qed.
-
-Lemma JW_reach : forall v np ops c, jv_alloc_table v = true -> jreach v np ops c -> JW c.
-Proof.
-  intros v np ops c Hv H. induction H as [|c t c' Hr IH Hs].
-  - intros t th Hth. simpl in Hth. rewrite nth_error_map in Hth. destruct (nth_error ops t); inversion Hth; subst. exact I.
-  - exact (JW_step v c t c' (JS_reach v np ops c Hr) (JE4_reach v np ops c Hv Hr) (RC_reach v np ops c Hv Hr)
-             (JL_reach v np ops c Hr) IH Hs).
-Qed.
-
-(* ReleaseClients / Client.Release never waits for the calls of a proxy hook *)
-Theorem join_release_never_waits_for_hook : forall v np ops c,
-  jv_alloc_table v = true -> jreach v np ops c ->
-  forall t th, nth_error (jthreads c) t = Some th -> j_pc th <> QRelWait.
-Proof.
-  intros v np ops c Hv Hr t th Hth Hpc. pose proof (JW_reach v np ops c Hv Hr t th Hth) as W.
-  unfold wrel in W. rewrite Hpc in W. exact W.
-Qed.
-
-(* no_stuck on chains, same shape as the single-promise C11_no_stuck: if nothing can move then the application holds a
-   call inside a PipelineCaller, or every unfinished operation waits - directly or through Join threads - for a
-   promise nobody has asked to resolve *)
-Theorem join_no_stuck : forall v np ops c,
-  jv_close_joined v = true -> jv_alloc_table v = true -> join_ordered ops -> jreach v np ops c ->
-  (forall t, jenabled v c t = false) ->
-  (exists t th, nth_error (jthreads c) t = Some th /\ j_pc th = QInCaller /\
-                jop_gated (j_op th) = true /\ mem_nat t (jgates c) = false) \/
-  (forall t th, nth_error (jthreads c) t = Some th -> j_pc th <> QDone ->
-                exists r, p_caller (getp c r) = true).
-Proof.
-  intros v np ops c Hv1 Hv2 Ho Hr Hdis.
-  destruct (join_no_stuck_chain_partial v np ops c Hv1 Hv2 Ho Hr Hdis) as [H|[[t [th [Hth Hpc]]]|H]]; auto.
-  exfalso. exact (join_release_never_waits_for_hook v np ops c Hv2 Hr t th Hth Hpc).
-Qed.
-
-(* waiters_released on chains: at rest, no call held by the application, every promise asked to resolve or joined
-   => every operation (Done/Struct waiters, ReleaseClients, Client(), pipelined calls, Joins) has finished *)
-Theorem join_waiters_released : forall v np ops c,
-  jv_close_joined v = true -> jv_alloc_table v = true -> join_ordered ops -> jreach v np ops c ->
-  (forall t, jenabled v c t = false) ->
-  (forall t th, nth_error (jthreads c) t = Some th -> j_pc th = QInCaller ->
-                jop_gated (j_op th) = true -> mem_nat t (jgates c) = true) ->
-  (forall k, p_caller (getp c k) = false) ->
-  forall t th, nth_error (jthreads c) t = Some th -> j_pc th = QDone.
-Proof.
-  intros v np ops c Hv1 Hv2 Ho Hr Hdis Hgate Hall t th Hth.
-  destruct (join_no_stuck v np ops c Hv1 Hv2 Ho Hr Hdis) as [[t1 [th1 [H1 [P1 [G1 M1]]]]]|H].
-  - rewrite (Hgate t1 th1 H1 P1 G1) in M1. discriminate.
-  - destruct (j_pc th) eqn:Hpc; auto;
-      (destruct (H t th Hth ltac:(congruence)) as [r Hc]; rewrite Hall in Hc; discriminate).
-Qed.
